@@ -58,6 +58,7 @@ func (c *Ctx) roleFieldTable(fn *ssa.Function) roleTable {
 		return t
 	}
 	armOf := map[*ssa.BasicBlock]string{}
+	edgeArm := map[[2]*ssa.BasicBlock]string{}
 	for _, b := range fn.Blocks {
 		iff, ok := b.Instrs[len(b.Instrs)-1].(*ssa.If)
 		if !ok {
@@ -84,6 +85,10 @@ func (c *Ctx) roleFieldTable(fn *ssa.Function) roleTable {
 				armOf[bb] = falseArm
 			}
 		}
+		// the edge that goes from the test straight to the merge ("x := a; if role { x = b }": a is what the
+		// other role gets)
+		edgeArm[[2]*ssa.BasicBlock{b, b.Succs[0]}] = trueArm
+		edgeArm[[2]*ssa.BasicBlock{b, b.Succs[1]}] = falseArm
 	}
 	sets := map[string]map[string]bool{"Initiator": {}, "Responder": {}, "": {}}
 	for _, b := range fn.Blocks {
@@ -111,7 +116,28 @@ func (c *Ctx) roleFieldTable(fn *ssa.Function) roleTable {
 				case ssa.CallInstruction:
 					used = true
 					_ = r
-				case *ssa.Phi, *ssa.MakeInterface, *ssa.Store:
+				case *ssa.Phi:
+					// selected by a merge: the arm is the one of the edge it comes in over
+					viaEdge := true
+					for i, e := range r.Edges {
+						if e != v {
+							continue
+						}
+						pred := r.Block().Preds[i]
+						arm, ok := edgeArm[[2]*ssa.BasicBlock{pred, r.Block()}]
+						if !ok {
+							arm, ok = armOf[pred]
+						}
+						if !ok {
+							viaEdge = false
+							break
+						}
+						sets[arm][name] = true
+					}
+					if !viaEdge {
+						used = true
+					}
+				case *ssa.MakeInterface, *ssa.Store:
 					used = true
 				}
 			}
